@@ -311,6 +311,37 @@ func SpecMatch(pattern string, hasWild bool, s string) bool {
 //@   ensures[C09] rs.e.count - card(rs.subs) == old(rs.e.count - card(rs.subs))
 //@   safety[C15]
 
+// --- get response (C09, C13, C15) --------------------------------------------------------
+
+// Registered resource subscriptions are well formed (data-structure invariant).
+//@ define predEventSubOK(e *EventSubscription) bool = e != nil && e.cache != nil &&
+//@     (e.base != nil ==> e.base.subs != nil && e.base.e == e) &&
+//@     (forall q string :: has(e.queries, q) ==> e.queries[q] != nil && e.queries[q].subs != nil && e.queries[q].e == e) &&
+//@     (forall q string :: has(e.links, q) ==> e.links[q] != nil && e.links[q].subs != nil && e.links[q].e == e)
+
+// processGetResponse, failure: the resource is marked as failed and unregistered, every waiting
+// subscriber is removed and exactly their uses of the cache entry are released; the waiting
+// subscribers are returned so that each is told about the error.
+//@ func (*ResourceSubscription).processGetResponse
+//@   requires rs != nil && rs.e != nil
+//@   assumes predEventSubOK(rs.e) && rs.subs != nil
+//@   ensures[C09,C15] nrs != nil
+//@   ensures[C09,C15] nrs.state == stateError ==> nrs == rs && rs.subs == nil && rs.e.count == old(rs.e.count) - old(card(rs.subs)) &&
+//@       len(sublist) == old(card(rs.subs)) && (rs.query == "" ==> rs.e.base == nil) && (rs.query != "" ==> !has(rs.e.queries, rs.query))
+//@   safety[C15]
+//@   loop 1 invariant i == iters1 && len(sublist) == card(rs.subs) && rs.subs == old(rs.subs) && card(rs.subs) == old(card(rs.subs)) && rs.state == stateError
+//@   loop 3 invariant i == iters3 && len(sublist) == card(rs.subs)
+
+// unregister removes the resource subscription, and the links that point to it, from its cache entry.
+//@ func (*ResourceSubscription).unregister
+//@   requires rs != nil && rs.e != nil
+//@   assumes rs.e.links == nil || rs.e.links != rs.e.queries
+//@   ensures[C09] (rs.query == "" ==> rs.e.base == nil) && (rs.query != "" ==> !has(rs.e.queries, rs.query)) && rs.links == nil
+//@   assigns rs.e.base, rs.links, elems(rs.e.queries), elems(rs.e.links)
+//@   noframe
+//@   safety[C15]
+//@   loop 1 invariant (rs.query == "" ==> rs.e.base == nil) && (rs.query != "" ==> !has(rs.e.queries, rs.query))
+
 // --- system reset re-fetch (C12, C03, C19) --------------------------------------------
 
 //@ func (*ResourceSubscription).processResetGetResponse
